@@ -193,10 +193,35 @@ class Gen:
             return ('A', self.with_base_cv(t[1], c, v), t[2])
         return ('F', self.with_base_cv(t[1], c, v), t[2], t[3])
 
-    def params(self):
+    def params(self, abbreviated=False):
         rng = self.rng
         ps, texts = [], []
+        self.at_params = []          # invented template parameters of `auto` / `Concept auto` parameters, in order
         for i in range(rng.choice([0, 0, 1, 1, 2, 3])):
+            if abbreviated and rng.random() < 0.3:
+                self.kinds.add('abbreviated template parameter')
+                concept = rng.choice([None, None, 'Cpt', 'ns::Cpt'])
+                name = rng.choice([None, 'p%d' % i])
+                ref = rng.choice(['', '', ' &', ' const &', ' *', ' &&'])
+                pre = ''
+                if ref in ('', ' &', ' *') and rng.random() < 0.3 and not concept:
+                    pre = rng.choice(['const ', 'volatile '])        # cv-qualifier before the placeholder
+                auto_t = T.Type(T.PQName([T.AutoSpecifier()]), const=pre == 'const ', volatile=pre == 'volatile ')
+                pt = auto_t
+                if ref == ' &':
+                    pt = T.Reference(auto_t)
+                elif ref == ' const &':
+                    auto_t.const = True
+                    pt = T.Reference(auto_t)
+                elif ref == ' *':
+                    pt = T.Pointer(auto_t)
+                elif ref == ' &&':
+                    pt = T.MoveReference(auto_t)
+                ps.append(T.Parameter(type=pt, name=name))
+                texts.append(pre + (concept + ' ' if concept else '') + 'auto' + ref + (' ' + name if name else ''))
+                tt = T.Type(BASES['Foo']()) if False else (T.Type(nm(*concept.split('::'))) if concept else T.Type(T.PQName([T.AutoSpecifier()])))
+                self.at_params.append(T.TemplateNonTypeParam(type=tt, param_idx=i))
+                continue
             t = self.var_type(depth=rng.choice([0, 1, 2]))
             name = rng.choice([None, 'p%d' % i])
             d = decl.print_decl(t, name)
@@ -223,7 +248,12 @@ class Gen:
             op = rng.choice(['==', '+', '<<', '()', '[]', '!=', '->', '*', '+=', '<=', '&&', '~'])
             name = 'operator' + op
             self.kinds.add('operator function')
-        ps, va, ptxt = self.params()
+        ps, va, ptxt = self.params(abbreviated=True)
+        if self.at_params:
+            if tmpl is None:
+                tmpl = T.TemplateDecl(params=list(self.at_params))
+            else:
+                tmpl.params.extend(self.at_params)
         trailing = rng.random() < 0.15
         rt = self.ret_type()
         while tmpl is not None and tmpl.raw_requires_pre is not None and decl.layers(rt)[0][1].startswith('::'):
@@ -281,6 +311,8 @@ class Gen:
         cls = rng.choice(['Cls', 'ns2::Cls'])
         segs = cls.split('::')
         kind = rng.choice(['m', 'm', 'ctor', 'dtor'])
+        if rng.random() < 0.3:
+            return self.templated_method_impl(ns)
         ps, va, ptxt = self.params()
         if kind == 'm':
             name = self.fresh('m')
@@ -296,6 +328,34 @@ class Gen:
         else:
             text = cls + '::~' + segs[-1] + '() {}'
             ns.method_impls.append(T.Method(return_type=None, name=nm(*(segs + ['~' + segs[-1]])), parameters=[], has_body=True, destructor=True))
+        return text
+
+    def templated_method_impl(self, ns):
+        """out-of-class definition of a member (template) of a class template: one header per level"""
+        rng = self.rng
+        self.kinds.add('templated method definition')
+        nheaders = rng.choice([1, 2, 2, 3])
+        headers, txt = [], ''
+        for i in range(nheaders):
+            pn = 'K%d' % i
+            headers.append(T.TemplateDecl(params=[T.TemplateTypeParam(typekey='typename', name=pn)]))
+            txt += 'template <typename %s> ' % pn
+        cls_seg = spec('Table', ty(nm('K0')))
+        segs = [cls_seg]
+        cls_txt = 'Table<K0>'
+        if nheaders == 3:
+            segs.append(spec('Row', ty(nm('K1'))))
+            cls_txt += '::Row<K1>'
+        name = self.fresh('m')
+        ps, va, ptxt = self.params(abbreviated=True)
+        headers[-1].params.extend(self.at_params)
+        rt = self.ret_type()
+        b, ls = decl.layers(rt)
+        const = rng.random() < 0.4
+        core = [cls_txt + '::' + name + '(' + ptxt + ')']
+        text = txt + ' '.join(decl.base_tokens(b) + decl.print_layers(ls, core)) + (' const' if const else '') + ' {}'
+        ns.method_impls.append(T.Method(return_type=real_type(rt), name=T.PQName(segs + [T.NameSpecifier(name)]), parameters=ps, vararg=va,
+                                        has_body=True, const=const, template=headers[0] if nheaders == 1 else headers))
         return text
 
     def typedef(self, ns):
